@@ -50,7 +50,9 @@ func New(config ...Config) fiber.Handler {
 			if !isValid {
 				panic("[CORS] Invalid origin format in configuration: " + trimmedOrigin)
 			}
-			sd := subdomain{prefix: normalizedOrigin[:i+3], suffix: normalizedOrigin[i+3:]}
+			// split behind "scheme://" of the normalized origin (i is an index into the untrimmed entry)
+			schemeSep := strings.IndexByte(normalizedOrigin, ':') + 3
+			sd := subdomain{prefix: normalizedOrigin[:schemeSep], suffix: normalizedOrigin[schemeSep:]}
 			allowSOrigins = append(allowSOrigins, sd)
 		} else {
 			trimmedOrigin := utils.Trim(origin, ' ')
